@@ -31,9 +31,24 @@ Model/De.vos Model/De.vok Model/De.required_vos: Model/De.v Model/Base.vos Model
 Model/Fixint.vo Model/Fixint.glob Model/Fixint.v.beautified Model/Fixint.required_vo: Model/Fixint.v Model/Base.vo Model/MachineInt.vo Model/DataModel.vo Model/Ser.vo Model/De.vo
 Model/Fixint.vio: Model/Fixint.v Model/Base.vio Model/MachineInt.vio Model/DataModel.vio Model/Ser.vio Model/De.vio
 Model/Fixint.vos Model/Fixint.vok Model/Fixint.required_vos: Model/Fixint.v Model/Base.vos Model/MachineInt.vos Model/DataModel.vos Model/Ser.vos Model/De.vos
-Model/Extract.vo Model/Extract.glob Model/Extract.v.beautified Model/Extract.required_vo: Model/Extract.v Model/Base.vo Model/MachineInt.vo Model/VarintParams.vo Gen/GenArith.vo Gen/GenLoops.vo Model/Varint.vo Model/Utf8.vo Model/DataModel.vo Model/Ser.vo Model/De.vo Model/Fixint.vo
-Model/Extract.vio: Model/Extract.v Model/Base.vio Model/MachineInt.vio Model/VarintParams.vio Gen/GenArith.vio Gen/GenLoops.vio Model/Varint.vio Model/Utf8.vio Model/DataModel.vio Model/Ser.vio Model/De.vio Model/Fixint.vio
-Model/Extract.vos Model/Extract.vok Model/Extract.required_vos: Model/Extract.v Model/Base.vos Model/MachineInt.vos Model/VarintParams.vos Gen/GenArith.vos Gen/GenLoops.vos Model/Varint.vos Model/Utf8.vos Model/DataModel.vos Model/Ser.vos Model/De.vos Model/Fixint.vos
+Model/Cobs.vo Model/Cobs.glob Model/Cobs.v.beautified Model/Cobs.required_vo: Model/Cobs.v Model/Base.vo
+Model/Cobs.vio: Model/Cobs.v Model/Base.vio
+Model/Cobs.vos Model/Cobs.vok Model/Cobs.required_vos: Model/Cobs.v Model/Base.vos
+Model/Crc.vo Model/Crc.glob Model/Crc.v.beautified Model/Crc.required_vo: Model/Crc.v Model/Base.vo
+Model/Crc.vio: Model/Crc.v Model/Base.vio
+Model/Crc.vos Model/Crc.vok Model/Crc.required_vos: Model/Crc.v Model/Base.vos
+Model/SerFlavors.vo Model/SerFlavors.glob Model/SerFlavors.v.beautified Model/SerFlavors.required_vo: Model/SerFlavors.v Model/Base.vo Model/DataModel.vo Model/Ser.vo Model/Cobs.vo Model/Crc.vo
+Model/SerFlavors.vio: Model/SerFlavors.v Model/Base.vio Model/DataModel.vio Model/Ser.vio Model/Cobs.vio Model/Crc.vio
+Model/SerFlavors.vos Model/SerFlavors.vok Model/SerFlavors.required_vos: Model/SerFlavors.v Model/Base.vos Model/DataModel.vos Model/Ser.vos Model/Cobs.vos Model/Crc.vos
+Model/DeFlavors.vo Model/DeFlavors.glob Model/DeFlavors.v.beautified Model/DeFlavors.required_vo: Model/DeFlavors.v Model/Base.vo Model/DataModel.vo Model/De.vo Model/Cobs.vo Model/Crc.vo
+Model/DeFlavors.vio: Model/DeFlavors.v Model/Base.vio Model/DataModel.vio Model/De.vio Model/Cobs.vio Model/Crc.vio
+Model/DeFlavors.vos Model/DeFlavors.vok Model/DeFlavors.required_vos: Model/DeFlavors.v Model/Base.vos Model/DataModel.vos Model/De.vos Model/Cobs.vos Model/Crc.vos
+Model/Accumulator.vo Model/Accumulator.glob Model/Accumulator.v.beautified Model/Accumulator.required_vo: Model/Accumulator.v Model/Base.vo Model/DataModel.vo Model/De.vo Model/Cobs.vo Model/DeFlavors.vo
+Model/Accumulator.vio: Model/Accumulator.v Model/Base.vio Model/DataModel.vio Model/De.vio Model/Cobs.vio Model/DeFlavors.vio
+Model/Accumulator.vos Model/Accumulator.vok Model/Accumulator.required_vos: Model/Accumulator.v Model/Base.vos Model/DataModel.vos Model/De.vos Model/Cobs.vos Model/DeFlavors.vos
+Model/Extract.vo Model/Extract.glob Model/Extract.v.beautified Model/Extract.required_vo: Model/Extract.v Model/Base.vo Model/MachineInt.vo Model/VarintParams.vo Gen/GenArith.vo Gen/GenLoops.vo Model/Varint.vo Model/Utf8.vo Model/DataModel.vo Model/Ser.vo Model/De.vo Model/Fixint.vo Model/Cobs.vo Model/Crc.vo Model/SerFlavors.vo Model/DeFlavors.vo Model/Accumulator.vo Spec/WireFormat.vo
+Model/Extract.vio: Model/Extract.v Model/Base.vio Model/MachineInt.vio Model/VarintParams.vio Gen/GenArith.vio Gen/GenLoops.vio Model/Varint.vio Model/Utf8.vio Model/DataModel.vio Model/Ser.vio Model/De.vio Model/Fixint.vio Model/Cobs.vio Model/Crc.vio Model/SerFlavors.vio Model/DeFlavors.vio Model/Accumulator.vio Spec/WireFormat.vio
+Model/Extract.vos Model/Extract.vok Model/Extract.required_vos: Model/Extract.v Model/Base.vos Model/MachineInt.vos Model/VarintParams.vos Gen/GenArith.vos Gen/GenLoops.vos Model/Varint.vos Model/Utf8.vos Model/DataModel.vos Model/Ser.vos Model/De.vos Model/Fixint.vos Model/Cobs.vos Model/Crc.vos Model/SerFlavors.vos Model/DeFlavors.vos Model/Accumulator.vos Spec/WireFormat.vos
 Proofs/BaseFacts.vo Proofs/BaseFacts.glob Proofs/BaseFacts.v.beautified Proofs/BaseFacts.required_vo: Proofs/BaseFacts.v Model/Base.vo
 Proofs/BaseFacts.vio: Proofs/BaseFacts.v Model/Base.vio
 Proofs/BaseFacts.vos Proofs/BaseFacts.vok Proofs/BaseFacts.required_vos: Proofs/BaseFacts.v Model/Base.vos
